@@ -146,8 +146,15 @@ def build_dir(tier):
     # drop objects of older source states (not while several trees are being checked side by side)
     if not os.environ.get("VERIF_KEEP_OBJ"):
         for old in os.listdir(base):
-            if old != _hash:
-                shutil.rmtree(os.path.join(base, old), ignore_errors=True)
+            po = os.path.join(base, old)
+            # (a directory touched within the last two hours may belong to a check running side by side on
+            # another tree)
+            try:
+                stale = time.time() - os.path.getmtime(po) > 7200
+            except OSError:
+                stale = False
+            if old != _hash and stale:
+                shutil.rmtree(po, ignore_errors=True)
     return d
 
 
